@@ -61,6 +61,10 @@ def run(ctx):
         ok = txt in (f"{text_p}.encode()", f"{text_p}.encode('utf-8')", f"{text_p}.encode('utf8')", f"{text_p}.encode('UTF-8')", f"{text_p}.encode(encoding='utf-8')")
         ctx.check("C14.R3", f"{norm(h.func)} receives the UTF-8 bytes of the text", ok, f.where(h), f"fingerprint: {norm(h)[:80]}", "a codec other than UTF-8 (or the text itself) is hashed")
 
+    # ... of the text as given: the parameter is not rebound before it is encoded
+    stores = [n for n in walk_local(f.node) if isinstance(n, ast.Name) and n.id == text_p and isinstance(n.ctx, (ast.Store, ast.Del))]
+    ctx.check("C14.R3", "the text hashed is the argument itself (the parameter is never rebound)", not stores, f.where(stores[0]) if stores else f.where(), f"fingerprint: `{text_p}` is reassigned" if stores else "", "the fingerprint is defined for every text: a text that is transformed first (re-canonicalised, stripped, normalised) no longer has the digest of its own UTF-8 bytes")
+
     ctx.rule("C14.R4", "Rabin frame: accumulator starts from 0xC15D213AA4D7A795; result rendered as 8 little-endian unsigned bytes in hex; table kept in locals", floor=4)
     r = p.func("_schema_common:rabin_fingerprint")
     consts = {}
